@@ -259,6 +259,45 @@ def object_class(name, nfields, frozen=False):
     _CLASS_CACHE[key] = base
   return _CLASS_CACHE[key]
 
+import collections as _collections, enum as _enum
+
+def _hostile_text(cls):
+  """Gives a builtin subclass a per-instance text returned by repr / str / format."""
+  cls.__repr__ = lambda self: self._text
+  cls.__str__ = lambda self: self._text
+  cls.__format__ = lambda self, spec: self._text
+  return cls
+
+@_hostile_text
+class IntSub(int):
+  def __new__(cls, v, text): o = int.__new__(cls, v); o._text = text; return o
+@_hostile_text
+class FloatSub(float):
+  def __new__(cls, v, text): o = float.__new__(cls, v); o._text = text; return o
+@_hostile_text
+class StrSub(str):
+  def __new__(cls, v, text): o = str.__new__(cls, v); o._text = text; return o
+@_hostile_text
+class BytesSub(bytes):
+  def __new__(cls, v, text): o = bytes.__new__(cls, v); o._text = text; return o
+@_hostile_text
+class TupleSub(tuple):
+  def __new__(cls, v, text): o = tuple.__new__(cls, v); o._text = text; return o
+@_hostile_text
+class ListSub(list):
+  def __init__(self, v, text): list.__init__(self, v); self._text = text
+@_hostile_text
+class DictSub(dict):
+  def __init__(self, v, text): dict.__init__(self, v); self._text = text
+Point = _collections.namedtuple('Point', ['x', 'y'])
+_ENUMS = {}
+def hostile_enum(text, intenum=False):
+  """An enum member whose value (and, for a plain Enum, name shown by repr) carries the text."""
+  key = (text, intenum)
+  if key not in _ENUMS:
+    _ENUMS[key] = (_enum.IntEnum('Level', {'LOW': 1, 'HIGH': 2}) if intenum else _enum.Enum('Mode', {'A': text, 'B': 'b'}))
+  return _ENUMS[key]
+
 class Opaque:
   """A non-symbolic object shown through its repr."""
   def __init__(self, text): self.text = text
@@ -269,7 +308,7 @@ class Opaque:
 def gen_value(rng, data, depth, stats=None, sym=False):
   """A nested value: dict / list / tuple / pg.Dict / pg.List / pg.Object / leaves."""
   p = pg()
-  kinds = ['int', 'str', 'str', 'longstr', 'none', 'bool', 'float', 'opaque', 'misc'] + (['exotic'] if data.exotic else []) + (['dict', 'dict', 'list', 'tuple', 'pgdict', 'pglist', 'object', 'object'] if depth > 0 else [])
+  kinds = ['int', 'str', 'str', 'longstr', 'none', 'bool', 'float', 'opaque', 'misc', 'subclass', 'subclass'] + (['exotic'] if data.exotic else []) + (['dict', 'dict', 'list', 'tuple', 'pgdict', 'pglist', 'object', 'object'] if depth > 0 else [])
   k = rng.choice(kinds)
   if sym and k == 'tuple':      # symbolic containers convert nested containers; keep the shapes stable
     k = 'list'
@@ -282,6 +321,21 @@ def gen_value(rng, data, depth, stats=None, sym=False):
   if k == 'bool': return rng.choice([True, False])
   if k == 'float': return rng.choice([1.5, -0.25, 1e100, float('inf')])
   if k == 'opaque': return Opaque(data.s('opaque-repr'))
+  if k == 'subclass':   # instances of subclasses of the builtins (and enum members, namedtuples) whose repr / str / format is user data
+    e = rng.choice(['int', 'float', 'str', 'longstr', 'bytes', 'enum', 'intenum', 'namedtuple'] + ([] if sym or depth <= 0 else ['tuple', 'list', 'dict']))
+    t_ = data.s('subclass-repr')
+    if e == 'int': return IntSub(rng.choice([0, 7, -3]), t_)
+    if e == 'float': return FloatSub(rng.choice([1.5, 0.0]), t_)
+    if e == 'str': return StrSub(data.s('leaf-str'), t_)
+    if e == 'longstr': return StrSub(data.s('leaf-str', long=True), t_)
+    if e == 'bytes': return BytesSub(b'raw<b>', t_)
+    if e == 'enum': return hostile_enum(t_).A
+    if e == 'intenum': return hostile_enum('', True).HIGH
+    if e == 'namedtuple': return Point(data.s('leaf-str'), rng.choice([1, None]))
+    kids_ = [gen_value(rng, data, depth - 1, stats, sym) for _ in range(rng.choice([0, 1, 2]))]
+    if e == 'tuple': return TupleSub(kids_, t_)
+    if e == 'list': return ListSub(kids_, t_)
+    return DictSub({data.s('dict-key'): x for x in kids_}, t_)
   if k == 'misc':       # other leaf / object kinds the default view handles: bytes, sets, classes, value specs, hyper values, partial objects
     e = rng.choice(['bytes', 'set', 'class', 'spec', 'oneof', 'partial'])
     if e == 'bytes': return data.s('leaf-str').encode('utf-8')
@@ -362,7 +416,9 @@ def conv(value, path):
   items = child_items(value)
   if items is None:
     # strings the model computes itself are sent empty: repr of Latin-1 strings (content and tooltip), of ints, bools and None
-    if isinstance(value, str):
+    if isinstance(value, str) and type(value) is not str:      # a str subclass: its repr is its own
+      lk, raw, rep = 7, str.__str__(value), repr(value)
+    elif isinstance(value, str):
       lat = all(ord(ch) < 256 for ch in value)
       lk, raw, rep = 2, value, ('' if lat else repr(value))
       if lat: fmt = ''
